@@ -78,7 +78,8 @@ struct Model {
   std::vector<MWatched> watched;
   std::vector<int> tracers;  // stack of tracer ids (kind in low bit)
   int next_tracer = 0;
-  int reporter_gen = 0;
+  int reporter_gen = 0;   // generation of the installed violation reporter
+  int ok_gen = 0;         // generation of the installed OK reporter
   uint64_t clock = 0;
 
   // ----- populations (ids of live objects in creation order) -----
@@ -198,7 +199,7 @@ struct Model {
     for (auto& m : mons) { mix(m.alive); mix(m.died); mix(m.in_seq[0]); mix(m.in_seq[1]); }
     for (auto& w : watched) { mix(w.alive); for (int x : w.monitors) mix(x); mix(-5); }
     for (int t : tracers) mix(t);
-    mix(reporter_gen);
+    mix(reporter_gen); mix(ok_gen);
     return h;
   }
 };
